@@ -82,6 +82,77 @@ pub fn marker_persister_ticks() -> u64 {
     PERSISTER_TICKS.load(Ordering::SeqCst)
 }
 
+// ---- I/O fault / crash injection (H1) ----
+
+pub const IO_ENTRY_WRITE: u32 = 0;
+pub const IO_ZERO_RANGE: u32 = 1;
+pub const IO_INDEX_TMP: u32 = 2;
+pub const IO_INDEX_RENAME: u32 = 3;
+pub const IO_MARKER_TMP: u32 = 4;
+pub const IO_MARKER_RENAME: u32 = 5;
+pub const IO_FILE_CREATE: u32 = 6;
+pub const IO_BATCH_SUBMIT: u32 = 7;
+/// matches every event kind (used to count "the n-th I/O event of any kind")
+pub const IO_ANY: u32 = 99;
+
+static FAULT_KIND: std::sync::atomic::AtomicU32 = std::sync::atomic::AtomicU32::new(u32::MAX);
+static FAULT_N: std::sync::atomic::AtomicI64 = std::sync::atomic::AtomicI64::new(-1);
+static FAULT_EXIT: std::sync::atomic::AtomicBool = std::sync::atomic::AtomicBool::new(false);
+static IO_EVENTS: AtomicU64 = AtomicU64::new(0);
+
+/// Arm one injected fault: the `nth` (0-based) event of `kind` from now on either fails
+/// (`exit == false`: the instrumented call returns an error / a failed completion) or terminates
+/// the process at once with `_exit(78)` before the event is performed (`exit == true`).
+pub fn arm_fault(kind: u32, nth: u64, exit: bool) {
+    FAULT_EXIT.store(exit, Ordering::SeqCst);
+    FAULT_N.store(nth as i64, Ordering::SeqCst);
+    FAULT_KIND.store(kind, Ordering::SeqCst);
+}
+
+pub fn disarm_fault() {
+    FAULT_KIND.store(u32::MAX, Ordering::SeqCst);
+    FAULT_N.store(-1, Ordering::SeqCst);
+}
+
+/// Number of instrumented I/O events performed so far in this process.
+pub fn io_events_seen() -> u64 {
+    IO_EVENTS.load(Ordering::SeqCst)
+}
+
+fn fire() -> bool {
+    if FAULT_EXIT.load(Ordering::SeqCst) {
+        unsafe { libc::_exit(78) }
+    }
+    disarm_fault();
+    true
+}
+
+/// Called immediately before an instrumented I/O event; `true` = the caller must fail it.
+pub(crate) fn io_event(kind: u32) -> bool {
+    IO_EVENTS.fetch_add(1, Ordering::SeqCst);
+    let armed = FAULT_KIND.load(Ordering::SeqCst);
+    if armed != kind && armed != IO_ANY {
+        return false;
+    }
+    if FAULT_N.fetch_sub(1, Ordering::SeqCst) == 0 {
+        return fire();
+    }
+    false
+}
+
+/// As `io_event`, for events that complete out of order (io_uring completions): the event with
+/// index `idx` fires when `idx` equals the armed position.
+pub(crate) fn io_event_indexed(kind: u32, idx: u64) -> bool {
+    IO_EVENTS.fetch_add(1, Ordering::SeqCst);
+    if FAULT_KIND.load(Ordering::SeqCst) != kind {
+        return false;
+    }
+    if FAULT_N.load(Ordering::SeqCst) == idx as i64 {
+        return fire();
+    }
+    false
+}
+
 pub fn sanitize_namespace(key: &str) -> String {
     crate::wal::config::sanitize_namespace(key)
 }
